@@ -32,6 +32,28 @@ DATA_OPERANDS = ("qpos", "qvel", "ctrl")
 _REAL = {"forward": mjx.forward, "step": mjx.step}
 
 
+def _stage_functions():
+    """every other public mjx function (Model, Data) -> Data: the partial pipeline stages (fwd_position, kinematics, euler, ...)"""
+    import inspect
+    out = {}
+    for n in dir(mjx):
+        f = getattr(mjx, n)
+        if n.startswith("_") or n in _REAL or not inspect.isfunction(f):
+            continue
+        try:
+            sig = inspect.signature(f)
+        except (TypeError, ValueError):
+            continue
+        ps = list(sig.parameters.values())
+        if (len(ps) >= 2 and "types.Model" in str(ps[0].annotation) and "types.Data" in str(ps[1].annotation) and all(q.default is not inspect.Parameter.empty for q in ps[2:])
+                and str(sig.return_annotation).endswith("types.Data'>")):
+            out[n] = f
+    return out
+
+
+_STAGES = _stage_functions()
+
+
 def _part(k):
     for a in ("name", "key", "idx"):
         if hasattr(k, a):
@@ -75,8 +97,9 @@ class MjxStub:
         self.data_operands = tuple(data_operands)
         self.factor = bool(factor)
         self.written, self.untouched, self.stats = {}, {}, {}
-        self.calls = {"forward": 0, "step": 0}
+        self.calls = {"forward": 0, "step": 0}    # partial stages are added when they are called
         data = mjx.make_data(model) if data is None else data
+        self._model, self._data = model, data
         self.names = [n for n, _ in leaf_table(data)]
         assert len(set(self.names)) == len(self.names), "ambiguous Data leaf names"
         self.avals = [(tuple(np.shape(l)), np.asarray(l).dtype if not hasattr(l, "dtype") else l.dtype) for _, l in leaf_table(data)]
@@ -121,14 +144,34 @@ class MjxStub:
         rest = [n for n in self.written["step"] if n not in self.written["forward"] or n in ("qpos", "qvel", "time")]
         return self._apply("STEP", rest, m, d1, ops, group={"qpos", "qvel", "time"} & set(self.written["step"]))
 
+    def stage(self, name):
+        """a partial pipeline stage (mjx.fwd_position, mjx.kinematics, ...): its own uninterpreted functions STAGE_<name>_<leaf> on the leaves the
+        real stage writes (measured lazily from its jaxpr); every other leaf passes through.  A partial stage is NOT forward: a leaf it leaves
+        untouched keeps its previous value, and a leaf it writes is not identified with forward's value of that leaf."""
+        real = _STAGES[name]
+
+        def stub(m, d, *a, **kw):
+            if a or kw:
+                return real(m, d, *a, **kw)
+            self.calls[name] = self.calls.get(name, 0) + 1
+            if name not in self.written:
+                w, u, neq, dt = measure_write_set(real, self._model, self._data)
+                self.written[name], self.untouched[name] = w, u
+                self.stats[name] = {"equations": neq, "seconds": round(dt, 2), "written": len(w), "untouched": len(u)}
+            return self._apply(f"STAGE_{name}", self.written[name], m, d, self._operands(m, d))
+        return stub
+
     # ------------------------------------------------------------------ patching
     def __enter__(self):
-        self._saved = (mjx.forward, mjx.step)
+        self._saved = {n: getattr(mjx, n) for n in ("forward", "step") + tuple(_STAGES)}
         mjx.forward, mjx.step = self.forward, self.step
+        for n in _STAGES:
+            setattr(mjx, n, self.stage(n))
         return self
 
     def __exit__(self, *a):
-        mjx.forward, mjx.step = self._saved
+        for n, f in self._saved.items():
+            setattr(mjx, n, f)
         return False
 
     @contextlib.contextmanager
@@ -180,6 +223,9 @@ class MjxStub:
                f"through unchanged (among them: {[n for n in self.untouched.get('step', self.untouched.get('forward', [])) if n in ('cfrc_ext', 'cacc', 'cfrc_int', 'xfrc_applied', 'qfrc_applied', 'mocap_pos', 'sensordata')]})"]
         if self.factor:
             out.append("physics operands go through one scalar token PHYS(operands) (FWD_<leaf>(PHYS(...))): equisatisfiable with the direct form, keeps the terms small")
+        st_called = [n for n in self.calls if n not in ("forward", "step")]
+        if st_called:
+            out.append(f"partial pipeline stages called by the code under test: {st_called}: STAGE_<name>_<leaf> on their measured write-sets {({n: self.stats.get(n) for n in st_called})}")
         out.append("physics is arbitrary: only the functional dependence on the operands and the measured write-set are kept; dependence of the real "
                    "functions on other inputs (warm start, applied forces, mocap, time) is not modelled")
         return out
